@@ -439,7 +439,7 @@ def settings_spec(draw):
             names.append(stp[1])
             fixed += [q for q in pending if q[2] == "root>" + stp[1]]
             pending = [q for q in pending if q[2] != "root>" + stp[1]]
-    return {"steps": fixed, "amount": draw(st.sampled_from([1000.0, 12345.67, 250.5])), "root_kids": draw(st.sampled_from([None, ["c"], ["a", "b", "c"]]))}
+    return {"steps": fixed, "amount": draw(st.sampled_from([1000.0, 12345.67, 250.5])), "root_kids": draw(st.sampled_from([None, ["c"], ["a", "b", "c"]])), "newcomers_trade": draw(st.integers(0, 2)) == 0, "live_after_setup": draw(st.booleans())}
 
 
 def case_settings(ctx, spec):
@@ -454,6 +454,7 @@ def case_settings(ctx, spec):
     nodes = {"root": root}
     pushed_int, pushed_fee = True, False
     labs = set()
+    funded = False
     for stp in spec["steps"]:
         if stp[0] == "push_int":
             root.use_integer_positions(stp[1])
@@ -464,12 +465,19 @@ def case_settings(ctx, spec):
         elif stp[0] == "setup":
             root.setup(data)
             is_setup = True
+            if spec.get("live_after_setup"):
+                # the tree is funded and running when the remaining steps happen
+                root.adjust(1e6)
+                root.update(dts[0])
+                funded = True
+                labs.add("steps_on_a_live_tree")
         else:
             _, nm, par, kids, cls = stp
             parent = nodes[par]
             built = [k if isinstance(k, str) else bt.core.Security(k["sec"], **({"lazy_add": True} if k.get("lazy") else {})) for k in kids]
             if cls == "Strategy":
-                new = bt.core.Strategy(nm, [], children=built, parent=parent)
+                stack = [bt.algos.SelectAll(), bt.algos.WeighEqually(), bt.algos.Rebalance()] if spec.get("newcomers_trade") else []
+                new = bt.core.Strategy(nm, stack, children=built, parent=parent)
             else:
                 new = bt.core.StrategyBase(nm, children=built, parent=parent)
             new = parent.children[nm]
@@ -481,7 +489,8 @@ def case_settings(ctx, spec):
                 labs.add("attached_after_push")
     if not is_setup:
         root.setup(data)
-    root.adjust(1e6)
+    if not funded:
+        root.adjust(1e6)
     root.update(dts[0])
     # fund every sub-strategy and let each of them trade every ticker it may trade (creating string-named securities on first use)
     for path in sorted(nodes, key=len):
@@ -495,6 +504,18 @@ def case_settings(ctx, spec):
             if t in data.columns:
                 nd.allocate(spec["amount"], child=t)
     root.update(dts[0])
+    if spec.get("newcomers_trade"):
+        # let every strategy's own stack (and that of its shadow copy) trade, today and on the next date
+        for d_ in (dts[0], dts[1]):
+            root.update(d_)
+            root.run()
+            root.update(d_)
+            for path, nd in nodes.items():
+                if nd is root:
+                    continue
+                seen = float(nd.parent.universe.loc[d_, nd.name])
+                if not (abs(seen - nd.price) <= 1e-12 * max(1.0, abs(nd.price))):
+                    raise Violation("on %s the universe of %s shows %r for its sub-strategy %s, whose index is %r; steps %s" % (d_, nd.parent.full_name, seen, nd.name, nd.price, spec["steps"]), signature="c19:settings-universe-cell")
     for m in walk_live(root):
         if m.integer_positions != pushed_int:
             raise Violation("integer_positions=%s was pushed from the root but %s (%s) has %s; steps %s" % (pushed_int, m.full_name, type(m).__name__, m.integer_positions, spec["steps"]), signature="c19:settings-integer")
@@ -507,7 +528,7 @@ def case_settings(ctx, spec):
             if not pushed_int and whole and abs(m.position * m.price - spec["amount"]) > (1.5 if pushed_fee else 0.0) + 1e-6:
                 raise Violation("%s holds the whole quantity %r for an amount of %r at price %r although fractional positions were asked for from the root; steps %s" % (m.full_name, m.position, spec["amount"], m.price, spec["steps"]), signature="c19:settings-quantity")
     check_live_structure(bt, root, "settings")
-    return {"nontrivial": "attached_after_push" in labs, "labels": sorted(labs) + ["int=%s" % pushed_int] + (["fee"] if pushed_fee else [])}
+    return {"nontrivial": "attached_after_push" in labs, "labels": sorted(labs) + ["int=%s" % pushed_int] + (["fee"] if pushed_fee else []) + (["newcomers_trade"] if spec.get("newcomers_trade") else [])}
 
 
 SUBS = {"construct": case_construct, "universe": case_universe, "lazy_vs_eager": case_lazy_vs_eager, "settings": case_settings}
